@@ -181,6 +181,7 @@ func specRel(opts []layers.TCPOption, a int, o int, isn uint32) uint32 {
 //@ requires[pre.ctx]          ctx != nil && sendN >= 0
 //@ ensures[C10.sack.atom]     ret1 != nil ==> ret0 == nil
 //@ ensures[C10.sack.result]   ret1 == nil ==> ret0 != nil
+//@ ensures[C03+C04+C05.sack.chain] ret1 == nil ==> sameslice(ret0.Hops, lastres(TracerouteParallel, 0)) && lastres(TracerouteParallel, 1) == nil
 //@ ensures[C10.sack.closed]   forallint(h, !old(selb(isOpen, h)) ==> !selb(isOpen, h))
 //@ ensures[C10.sack.others.open]  forallint(h, old(selb(isOpen, h)) ==> selb(isOpen, h))
 // (that the close counter of such a handle is unchanged follows from "still open" — no operation re-opens an existing
@@ -215,6 +216,8 @@ func specRel(opts []layers.TCPOption, a int, o int, isn uint32) uint32 {
 //@ requires[pre.ctx]          ctx != nil && sendN >= 0
 //@ ensures[C10.entry.atom]    ret1 != nil ==> ret0 == nil
 //@ ensures[C03.entry.hops]    ret1 == nil ==> ret0 != nil && forall(i, 0, len(ret0.Hops), ret0.Hops[i] != nil)
+//@ ensures[C03+C04+C05.entry.chain] ret1 == nil ==> sameslice(ret0.Hops, lastres(ToHops, 0)) && lastres(ToHops, 1) == nil && lastres(runSackTraceroute, 1) == nil && sameslice(lastarg(ToHops, probes), lastres(runSackTraceroute, 0).Hops)
+//@ ensures[C06.entry.endpoints]     ret1 == nil ==> ret0.Source.Port == lastres(runSackTraceroute, 0).LocalAddr.Port() && ret0.Destination.Port == p.Target.Port()
 //@ ensures[C10.entry.closed]  forallint(h, !old(selb(isOpen, h)) ==> !selb(isOpen, h))
 //@ ensures[C10.entry.others]  forallint(h, old(selb(isOpen, h)) ==> selb(isOpen, h))
 //@ ensures[C20.entry.class]   ncalls(runSackTraceroute) == old(ncalls(runSackTraceroute)) + 1 && lastres(runSackTraceroute, 1) != nil ==> ret1 != nil && chain(ret1, *NotSupportedError) == chain(lastres(runSackTraceroute, 1), *NotSupportedError)
